@@ -55,6 +55,9 @@ META = {
                     "(recorded on every run, compared with the model)",
                     "which of several equally large packs autopack combines depends on the ordering of Pack objects: taken "
                     "from the run (hint) and validated against Model/AutoPack.v's planner by revision-count multiset",
+                    "whether GCCHKPacker finds a single pack 'already optimally packed' (md5 of the repacked bytes == old "
+                    "name) is content dependent (true for a fetched or pack()-made pack, false for an autopack-made one): "
+                    "taken from the run, accepted by the model only for 2a with exactly one pack",
                     "a stale lock/held directory after a crash needs break-lock before the next write (modelled; not a "
                     "temporary file in the sense of the property)"],
     "rule": ("scenario families x {2a, pack-0.92} x {repository write groups, working-tree commits}; every mutating transport "
@@ -572,8 +575,10 @@ def _op_hint(op, events, obsoleted):
 def _scratch():
     d = _state["dir"]
     if d is None or not os.path.isdir(d):
+        import atexit
         import tempfile
-        d = tempfile.mkdtemp(prefix="verif-C04-lazy-")
+        d = tempfile.mkdtemp(prefix="verif-C04-lazy-")     # --replay / shrink outside setup(); removed at exit
+        atexit.register(shutil.rmtree, d, True)
         _state.update(dir=d, templates={}, sources={}, lazy=d)
     return d
 
@@ -603,7 +608,7 @@ def _key(inp):
 
 
 def _run(inp):
-    _register()
+    _init()
     fmt, mode = inp["fmt"], inp.get("mode", "repo")
     base = [list(o) for o in inp["base"]]
     tp, tids, bhints = _template(fmt, mode, base)
@@ -630,7 +635,9 @@ def _run(inp):
 # property-module interface
 # --------------------------------------------------------------------------
 
-def setup(scratch):
+def _init():
+    if _state.get("inited"):
+        return
     import breezy
     import breezy.bzr  # noqa
     import breezy.config
@@ -638,8 +645,13 @@ def setup(scratch):
     # fdatasync is not a transport operation and durability is outside the model; without it the
     # ~10^4 commits/packs on the snapshot copies are 5x faster (BRZ_HOME is the run's scratch home)
     breezy.config.GlobalStack().set("repository.fdatasync", False)
-    _state.update(dir=scratch, templates={}, sources={}, n=0)
     _register()
+    _state["inited"] = True
+
+
+def setup(scratch):
+    _state.update(dir=scratch, templates={}, sources={}, n=0)
+    _init()
 
 
 def teardown():
@@ -737,7 +749,7 @@ def cases(rng, tier):
         for fmt in BOTH:
             for name, mode, base, ops in _THOROUGH:
                 yield {"fmt": fmt, "mode": mode, "base": base, "ops": ops, "family": name}
-        for _ in range(30):
+        for _ in range(20):
             yield _random_scenario(rng)
     else:
         for _ in range(3):
